@@ -67,18 +67,21 @@ func init() {
 				}
 				// closures of this function by variable
 				localLit := map[types.Object]*ast.FuncLit{}
-				inspectShallow(f.Body(), func(x ast.Node) bool {
-					if as, ok := x.(*ast.AssignStmt); ok && len(as.Lhs) == len(as.Rhs) {
-						for i, rh := range as.Rhs {
-							if lit, ok := ast.Unparen(rh).(*ast.FuncLit); ok {
-								if o := identObj(info, as.Lhs[i]); o != nil {
-									localLit[o] = lit
+				// (of this function and of the functions it is nested in: helpers declared next to the walking closure)
+				for g := f; g != nil; g = g.Parent {
+					inspectShallow(g.Body(), func(x ast.Node) bool {
+						if as, ok := x.(*ast.AssignStmt); ok && len(as.Lhs) == len(as.Rhs) {
+							for i, rh := range as.Rhs {
+								if lit, ok := ast.Unparen(rh).(*ast.FuncLit); ok {
+									if o := identObj(info, as.Lhs[i]); o != nil {
+										localLit[o] = lit
+									}
 								}
 							}
 						}
-					}
-					return true
-				})
+						return true
+					})
+				}
 				fl := p.Flow(f)
 				for _, pt := range fl.Find(func(nd ast.Node) bool { return true }) {
 					nd := fl.node(pt)
